@@ -282,7 +282,11 @@ impl<T> Store<T> {
 
         stmt.bind((1, id))?;
 
-        if let Some(Ok(row)) = stmt.into_iter().next() {
+        if let Some(row) = stmt.into_iter().next() {
+            // N.b. a failure to read the row (eg. the database is locked) is an
+            // error, not "no policy": falling back to the default policy here
+            // would serve a blocked repository when the default is to allow.
+            let row = row?;
             let policy = match row.read::<Policy, _>("policy") {
                 Policy::Allow => SeedingPolicy::Allow {
                     scope: row.read::<Scope, _>("scope"),
